@@ -6,6 +6,11 @@ VERIF = os.path.dirname(os.path.dirname(os.path.abspath(__file__)))
 ALL = ["C%02d" % i for i in range(1, 21)]
 
 CLAIMED = {
+ "C06": dict(
+   technique="Generative TLA+ spec Sniff.tla: abstract TLS ClientHello / HTTP/1 request head / QUIC Initial flight structures with the expected outcome computed from the RFC structure (first host_name entry of server_name, first Host header, CRYPTO range coverage), delivery plans (cuts into reads with gaps relative to the sniffing timeout; CRYPTO frames split, reordered, duplicated, padded, spread over packets and datagrams, coalesced foreign packets; drain method) enumerated / simulated by TLC; every case rendered to bytes (QUIC packets protected by an independent RFC 9001/9369 implementation on the standard library) and run through NewConnSniffer.SniffTcp over a scheduled in-memory connection in virtual time and NewPacketSniffer/AppendData/SniffUdp",
+   text="TLC enumerates all hellos with up to 2 (thorough: 3) extensions in all orders (SNI with one / several / unknown-type / no entries, GREASE, padding, ALPN, supported_versions, key_share), record and legacy versions, session ids, non-hello handshake types, all HTTP heads of up to 2 (3) headers over 4 methods, all cut sets of up to 2 cuts over 6 positions x 3 gap classes x 3 drain methods, and simulates QUIC v1/v2 flights of up to 3 packets. Compared: the outcome class and name against the RFC expectation, completion within the sniffing timeout, bytes handed on afterwards through Read / WriteTo / TakeRelayPrefix equal to the bytes sent (the connection stays usable), datagrams byte-for-byte unchanged and in order, no panic; random / truncated / bit-flipped inputs carry only the totality and payload obligations. This found and fixed three defects (sticky timeout error, truncated Host, QUIC v2 never recognised).",
+   note="Length-field perturbations of otherwise valid hellos are covered only through bit flips / truncation (no name expectation). A reader polling a finished stream spins until the deadline (observed, within the timeout, not claimed). Trusted: TLC, testing/synctest, crypto/aes, crypto/hkdf.",
+   design="§3 C06"),
  "C09": dict(
    technique="TLA+ spec DnsConc.tla (singleflight join/lead/publish, cachedDnsForwarder use counting and retirement, pooled UDP sockets with buffered datagrams, one pipelined TCP connection with lowest-free pipeline ids, a server that answers any request it has seen late / twice / for another question, deadlines) model-checked exhaustively with TLC; every behaviour replayed step by step on a real DnsController with real DoUDP / DoTCP forwarders over in-memory sockets in virtual time (testing/synctest), observations compared after every step",
    text="TLC enumerates all behaviours of 3 (thorough: 4) clients with colliding transaction ids and equal / different questions, 4 server sends and timeouts, for both transports, checking ReplyMatches, CacheTruthful, OneResolution, ClosedOnce and RetiredGetsClosed in every state; the same model with the question validation switched off must violate ReplyMatches (non-vacuity). All behaviours (quick: 8000 sampled by VERIF_SEED, thorough: 120000) are executed on the real code: replies (id, question, answer owner names), the number of requests the server received, forwarder close counts / close-while-in-use / use-after-close after every step, and the cache contents at the end. This found and fixed a defect (answers accepted on the transaction id alone).",
